@@ -3,22 +3,19 @@ import CollectionsC.Proofs.ArraySized2
 namespace CC.ArraySized
 open CC CC.Gen
 
-theorem growOk_of_eq {a a' : ArraySized} (hg : a.GrowOk) (h : a'.grow = a.grow) : a'.GrowOk := by
-  intro c; rw [h]; exact hg c
-
 /-- the conclusion of `step_refines` for a call that cannot be refused -/
 theorem step_pack (a a' : ArraySized) (op : Spec.SSeq.Op Elem) (m m' : Mem) (o : Spec.SSeq.Out Elem)
     (hs1 : (a.step op m).1 = o) (hs2 : (a.step op m).2.1 = a') (hs3 : (a.step op m).2.2 = m')
     (hst : o.st ≠ some .errAlloc ∧ o.st ≠ some .errMaxCapacity)
     (hspec : (Spec.SSeq.step a.abs op none) = (o, a'.abs))
-    (hinv : a'.Inv) (hg : a'.GrowOk) (hdl : a'.dataLen = a.dataLen) (hm : MemSame m m') :
+    (hinv : a'.Inv) (hg : a'.grow = a.grow) (hdl : a'.dataLen = a.dataLen) (hm : MemSame m m') :
     (a.step op m).1 = (Spec.SSeq.step a.abs op (a.refusal op m)).1 ∧
     (a.step op m).2.1.abs = (Spec.SSeq.step a.abs op (a.refusal op m)).2 ∧
-    (a.step op m).2.1.Inv ∧ (a.step op m).2.1.GrowOk ∧ (a.step op m).2.1.dataLen = a.dataLen ∧
+    (a.step op m).2.1.Inv ∧ (a.step op m).2.1.grow = a.grow ∧ (a.step op m).2.1.dataLen = a.dataLen ∧
     MemSame m (a.step op m).2.2 ∧
     (a.refusal op m ≠ none → (a.step op m).2.1 = a) ∧
     (a.refusal op m = some .errAlloc → m.alloc.1 = false) ∧
-    (a.refusal op m = some .errMaxCapacity → a.capacity = CC_MAX_ELEMENTS) := by
+    (a.refusal op m = some .errMaxCapacity → a.AtLimit) := by
   have hstep : a.step op m = (o, a', m') := Prod.ext hs1 (Prod.ext hs2 hs3)
   have hr : a.refusal op m = none := by
     unfold refusal
@@ -31,47 +28,47 @@ theorem step_pack (a a' : ArraySized) (op : Spec.SSeq.Op Elem) (m m' : Mem) (o :
   rw [hr, hstep, hspec]
   exact ⟨rfl, rfl, hinv, hg, hdl, hm, (fun hh => absurd rfl hh), nofun, nofun⟩
 
-theorem step_refines (a : ArraySized) (op : Spec.SSeq.Op Elem) (m : Mem) (h : a.Inv) (hg : a.GrowOk)
+theorem step_refines (a : ArraySized) (op : Spec.SSeq.Op Elem) (m : Mem) (h : a.Inv)
     (hw : OpWF a.dataLen op) :
     (a.step op m).1 = (Spec.SSeq.step a.abs op (a.refusal op m)).1 ∧
     (a.step op m).2.1.abs = (Spec.SSeq.step a.abs op (a.refusal op m)).2 ∧
-    (a.step op m).2.1.Inv ∧ (a.step op m).2.1.GrowOk ∧ (a.step op m).2.1.dataLen = a.dataLen ∧
+    (a.step op m).2.1.Inv ∧ (a.step op m).2.1.grow = a.grow ∧ (a.step op m).2.1.dataLen = a.dataLen ∧
     MemSame m (a.step op m).2.2 ∧
     (a.refusal op m ≠ none → (a.step op m).2.1 = a) ∧
     (a.refusal op m = some .errAlloc → m.alloc.1 = false) ∧
-    (a.refusal op m = some .errMaxCapacity → a.capacity = CC_MAX_ELEMENTS) := by
+    (a.refusal op m = some .errMaxCapacity → a.AtLimit) := by
   cases op with
   | add x =>
-    rcases add_spec a x m h hg hw with ⟨h1, h2, h3, h4, h5, h6, h7⟩ | ⟨h1, h2, h3, h4, h5, h6⟩
+    rcases add_spec a x m h hw with ⟨h1, h2, h3, h4, h5, h6, h7⟩ | ⟨h1, h2, h3, h4, h5, h6⟩
     · have hr : a.refusal (.add x) m = none := by simp [refusal, step, h1]
       rw [hr]
       simp only [step, Spec.SSeq.step, Spec.SSeq.add, h1, h3]
-      exact ⟨trivial, trivial, h2, growOk_of_eq hg h5, h4, h7, (fun hh => absurd rfl hh), nofun, nofun⟩
+      exact ⟨trivial, trivial, h2, h5, h4, h7, (fun hh => absurd rfl hh), nofun, nofun⟩
     · rcases h1 with h1 | h1
       · have hr : a.refusal (.add x) m = some .errAlloc := by simp [refusal, step, h1]
         rw [hr]
         simp only [step, Spec.SSeq.step, h1, h2]
-        exact ⟨trivial, trivial, h, hg, trivial, h3, fun _ => trivial, fun _ => h5 h1, nofun⟩
+        exact ⟨trivial, trivial, h, trivial, trivial, h3, fun _ => trivial, fun _ => h5 h1, nofun⟩
       · have hr : a.refusal (.add x) m = some .errMaxCapacity := by simp [refusal, step, h1]
         rw [hr]
         simp only [step, Spec.SSeq.step, h1, h2]
-        exact ⟨trivial, trivial, h, hg, trivial, h3, fun _ => trivial, nofun, fun _ => h6 h1⟩
+        exact ⟨trivial, trivial, h, trivial, trivial, h3, fun _ => trivial, nofun, fun _ => h6 h1⟩
   | addAt x i =>
     by_cases hi : i ≤ a.size
-    · rcases addAt_spec a x i m h hg hw hi with ⟨h1, h2, h3, h4, h5, h6, h7⟩ | ⟨h1, h2, h3, h4, h5, h6⟩
+    · rcases addAt_spec a x i m h hw hi with ⟨h1, h2, h3, h4, h5, h6, h7⟩ | ⟨h1, h2, h3, h4, h5, h6⟩
       · have hr : a.refusal (.addAt x i) m = none := by simp [refusal, step, h1]
         rw [hr]
         simp only [step, Spec.SSeq.step, Spec.SSeq.addAt, abs_length, hi, if_true, h1, h3]
-        exact ⟨trivial, trivial, h2, growOk_of_eq hg h5, h4, h7, (fun hh => absurd rfl hh), nofun, nofun⟩
+        exact ⟨trivial, trivial, h2, h5, h4, h7, (fun hh => absurd rfl hh), nofun, nofun⟩
       · rcases h1 with h1 | h1
         · have hr : a.refusal (.addAt x i) m = some .errAlloc := by simp [refusal, step, h1]
           rw [hr]
           simp only [step, Spec.SSeq.step, Spec.SSeq.addAt, abs_length, hi, if_true, h1, h2]
-          exact ⟨trivial, trivial, h, hg, trivial, h3, fun _ => trivial, fun _ => h5 h1, nofun⟩
+          exact ⟨trivial, trivial, h, trivial, trivial, h3, fun _ => trivial, fun _ => h5 h1, nofun⟩
         · have hr : a.refusal (.addAt x i) m = some .errMaxCapacity := by simp [refusal, step, h1]
           rw [hr]
           simp only [step, Spec.SSeq.step, Spec.SSeq.addAt, abs_length, hi, if_true, h1, h2]
-          exact ⟨trivial, trivial, h, hg, trivial, h3, fun _ => trivial, nofun, fun _ => h6 h1⟩
+          exact ⟨trivial, trivial, h, trivial, trivial, h3, fun _ => trivial, nofun, fun _ => h6 h1⟩
     · apply step_pack a a _ m m { st := some .errOutOfRange }
       · simp only [step, addAt_inert a x i m (by omega)]
       · simp only [step, addAt_inert a x i m (by omega)]
@@ -79,7 +76,7 @@ theorem step_refines (a : ArraySized) (op : Spec.SSeq.Op Elem) (m : Mem) (h : a.
       · exact ⟨by simp, by simp⟩
       · simp only [Spec.SSeq.step, Spec.SSeq.addAt, abs_length, hi, if_false]
       · exact h
-      · exact hg
+      · rfl
       · rfl
       · exact MemSame.refl m
   | replaceAt x i =>
@@ -93,7 +90,7 @@ theorem step_refines (a : ArraySized) (op : Spec.SSeq.Op Elem) (m : Mem) (h : a.
       · simp only [Spec.SSeq.step, Spec.SSeq.replaceAt, abs_length, hi, if_true]
         rw [← hs.2.2, hs.1]
       · have := hs.2.1; rw [hs.1] at this; exact this
-      · exact growOk_of_eq hg rfl
+      · exact rfl
       · rfl
       · exact MemSame.refl m
     · apply step_pack a a _ m m { st := some .errOutOfRange }
@@ -103,7 +100,7 @@ theorem step_refines (a : ArraySized) (op : Spec.SSeq.Op Elem) (m : Mem) (h : a.
       · exact ⟨by simp, by simp⟩
       · simp only [Spec.SSeq.step, Spec.SSeq.replaceAt, abs_length, hi, if_false]
       · exact h
-      · exact hg
+      · rfl
       · rfl
       · exact MemSame.refl m
   | swapAt i j =>
@@ -117,7 +114,7 @@ theorem step_refines (a : ArraySized) (op : Spec.SSeq.Op Elem) (m : Mem) (h : a.
       · simp only [Spec.SSeq.step, Spec.SSeq.swapAt, abs_getElem?, hi.1, hi.2, if_true]
         rw [s4]
       · exact s3
-      · exact growOk_of_eq hg s6
+      · exact s6
       · exact s5
       · exact MemSame.refl m
     · apply step_pack a a _ m m { st := some .errOutOfRange }
@@ -131,7 +128,7 @@ theorem step_refines (a : ArraySized) (op : Spec.SSeq.Op Elem) (m : Mem) (h : a.
           simp [h1, h2]
         · simp [h1]
       · exact h
-      · exact hg
+      · rfl
       · rfl
       · exact MemSame.refl m
   | remove x =>
@@ -145,7 +142,7 @@ theorem step_refines (a : ArraySized) (op : Spec.SSeq.Op Elem) (m : Mem) (h : a.
       cases Spec.SSeq.indexOf a.abs x <;> exact ⟨by simp, by simp⟩
     · simp only [Spec.SSeq.step]; rw [s1, s4]
     · exact s3
-    · exact growOk_of_eq hg s7
+    · exact s7
     · exact s6
     · exact MemSame.refl m
   | removeAt i =>
@@ -158,7 +155,7 @@ theorem step_refines (a : ArraySized) (op : Spec.SSeq.Op Elem) (m : Mem) (h : a.
       · exact ⟨by simp, by simp⟩
       · simp only [Spec.SSeq.step, Spec.SSeq.removeAt, abs_length, hi, if_true]; rw [s5]
       · exact s4
-      · exact growOk_of_eq hg s7
+      · exact s7
       · exact s6
       · exact MemSame.refl m
     · apply step_pack a a _ m m { st := some .errOutOfRange }
@@ -168,7 +165,7 @@ theorem step_refines (a : ArraySized) (op : Spec.SSeq.Op Elem) (m : Mem) (h : a.
       · exact ⟨by simp, by simp⟩
       · simp only [Spec.SSeq.step, Spec.SSeq.removeAt, abs_length, hi, if_false]
       · exact h
-      · exact hg
+      · rfl
       · rfl
       · exact MemSame.refl m
   | removeLast =>
@@ -183,7 +180,7 @@ theorem step_refines (a : ArraySized) (op : Spec.SSeq.Op Elem) (m : Mem) (h : a.
       · exact ⟨by simp, by simp⟩
       · simp only [Spec.SSeq.step, Spec.SSeq.removeLast, hne, if_false]; rw [s5]
       · exact s4
-      · exact growOk_of_eq hg s7
+      · exact s7
       · exact s6
       · exact MemSame.refl m
     · have he : a.abs = [] := by simp [abs, show a.size = 0 by omega]
@@ -194,7 +191,7 @@ theorem step_refines (a : ArraySized) (op : Spec.SSeq.Op Elem) (m : Mem) (h : a.
       · exact ⟨by simp, by simp⟩
       · simp only [Spec.SSeq.step, Spec.SSeq.removeLast, he, if_true]
       · exact h
-      · exact hg
+      · rfl
       · rfl
       · exact MemSame.refl m
   | removeAll =>
@@ -206,7 +203,7 @@ theorem step_refines (a : ArraySized) (op : Spec.SSeq.Op Elem) (m : Mem) (h : a.
     · exact ⟨by simp, by simp⟩
     · simp only [Spec.SSeq.step]; rw [hs.2]
     · exact hs.1
-    · exact growOk_of_eq hg rfl
+    · exact rfl
     · rfl
     · exact MemSame.refl m
   | reverse =>
@@ -218,7 +215,7 @@ theorem step_refines (a : ArraySized) (op : Spec.SSeq.Op Elem) (m : Mem) (h : a.
     · exact ⟨by simp, by simp⟩
     · simp only [Spec.SSeq.step]; rw [s3]
     · exact s2
-    · exact growOk_of_eq hg s5
+    · exact s5
     · exact s4
     · exact MemSame.refl m
   | filterMut p =>
@@ -233,7 +230,7 @@ theorem step_refines (a : ArraySized) (op : Spec.SSeq.Op Elem) (m : Mem) (h : a.
       · exact ⟨by simp, by simp⟩
       · simp only [Spec.SSeq.step, Spec.SSeq.filterMut, hne, if_false]; rw [s5]
       · exact s4
-      · exact growOk_of_eq hg s7
+      · exact s7
       · exact s6
       · exact MemSame.refl m
     · have he : a.abs = [] := by simp [abs, show a.size = 0 by omega]
@@ -244,7 +241,7 @@ theorem step_refines (a : ArraySized) (op : Spec.SSeq.Op Elem) (m : Mem) (h : a.
       · exact ⟨by simp, by simp⟩
       · simp only [Spec.SSeq.step, Spec.SSeq.filterMut, he, if_true]; rfl
       · exact h
-      · exact hg
+      · rfl
       · rfl
       · exact MemSame.refl m
   | trim =>
@@ -252,11 +249,11 @@ theorem step_refines (a : ArraySized) (op : Spec.SSeq.Op Elem) (m : Mem) (h : a.
     · have hr : a.refusal .trim m = none := by simp [refusal, step, h1]
       rw [hr]
       simp only [step, Spec.SSeq.step, h1, h3]
-      exact ⟨trivial, trivial, h2, growOk_of_eq hg h7, h6, h8, (fun hh => absurd rfl hh), nofun, nofun⟩
+      exact ⟨trivial, trivial, h2, h7, h6, h8, (fun hh => absurd rfl hh), nofun, nofun⟩
     · have hr : a.refusal .trim m = some .errAlloc := by simp [refusal, step, h1]
       rw [hr]
       simp only [step, Spec.SSeq.step, h1, h2]
-      exact ⟨trivial, trivial, h, hg, trivial, h3, fun _ => trivial, fun _ => h4, nofun⟩
+      exact ⟨trivial, trivial, h, trivial, trivial, h3, fun _ => trivial, fun _ => h4, nofun⟩
   | getAt i =>
     apply step_pack a a _ m m { st := some (Spec.SSeq.getAt a.abs i).1, val := (Spec.SSeq.getAt a.abs i).2 }
     · simp only [step, getAt_spec a i m h, Spec.SSeq.getAt, abs_length]
@@ -266,7 +263,7 @@ theorem step_refines (a : ArraySized) (op : Spec.SSeq.Op Elem) (m : Mem) (h : a.
     · unfold Spec.SSeq.getAt; split <;> exact ⟨by simp, by simp⟩
     · rfl
     · exact h
-    · exact hg
+    · rfl
     · rfl
     · exact MemSame.refl m
   | getLast =>
@@ -278,7 +275,7 @@ theorem step_refines (a : ArraySized) (op : Spec.SSeq.Op Elem) (m : Mem) (h : a.
     · unfold Spec.SSeq.getLast; split <;> exact ⟨by simp, by simp⟩
     · rfl
     · exact h
-    · exact hg
+    · rfl
     · rfl
     · exact MemSame.refl m
   | peek i =>
@@ -290,7 +287,7 @@ theorem step_refines (a : ArraySized) (op : Spec.SSeq.Op Elem) (m : Mem) (h : a.
     · unfold Spec.SSeq.getAt; split <;> exact ⟨by simp, by simp⟩
     · rfl
     · exact h
-    · exact hg
+    · rfl
     · rfl
     · exact MemSame.refl m
   | indexOf x =>
@@ -301,7 +298,7 @@ theorem step_refines (a : ArraySized) (op : Spec.SSeq.Op Elem) (m : Mem) (h : a.
     · unfold Spec.SSeq.indexOfSt; split <;> exact ⟨by simp, by simp⟩
     · rfl
     · exact h
-    · exact hg
+    · rfl
     · rfl
     · exact MemSame.refl m
   | contains x =>
@@ -312,7 +309,7 @@ theorem step_refines (a : ArraySized) (op : Spec.SSeq.Op Elem) (m : Mem) (h : a.
     · exact ⟨by simp, by simp⟩
     · rfl
     · exact h
-    · exact hg
+    · rfl
     · rfl
     · exact MemSame.refl m
   | map f =>
@@ -324,7 +321,7 @@ theorem step_refines (a : ArraySized) (op : Spec.SSeq.Op Elem) (m : Mem) (h : a.
     · exact ⟨by simp, by simp⟩
     · simp only [Spec.SSeq.step]; rw [s4]
     · exact s3
-    · exact growOk_of_eq hg s6
+    · exact s6
     · exact s5
     · exact MemSame.refl m
   | reduce fn r0 =>
@@ -335,7 +332,7 @@ theorem step_refines (a : ArraySized) (op : Spec.SSeq.Op Elem) (m : Mem) (h : a.
     · exact ⟨by simp, by simp⟩
     · rfl
     · exact h
-    · exact hg
+    · rfl
     · rfl
     · exact MemSame.refl m
   | sort sortFn =>
@@ -347,27 +344,27 @@ theorem step_refines (a : ArraySized) (op : Spec.SSeq.Op Elem) (m : Mem) (h : a.
     · exact ⟨by simp, by simp⟩
     · simp only [Spec.SSeq.step]; rw [s2]
     · exact s1
-    · exact growOk_of_eq hg s4
+    · exact s4
     · exact s3
     · exact MemSame.refl m
 
 /-! ### histories -/
 theorem run_refines (ops : List (Spec.SSeq.Op Elem)) :
-    ∀ (a : ArraySized) (m : Mem), a.Inv → a.GrowOk → (∀ op ∈ ops, OpWF a.dataLen op) →
+    ∀ (a : ArraySized) (m : Mem), a.Inv → (∀ op ∈ ops, OpWF a.dataLen op) →
       (a.run ops m).1 = (Spec.SSeq.run a.abs ops (a.refusals ops m)).1 ∧
       (a.run ops m).2.1.abs = (Spec.SSeq.run a.abs ops (a.refusals ops m)).2 ∧
-      (a.run ops m).2.1.Inv ∧ (a.run ops m).2.1.GrowOk ∧ (a.run ops m).2.1.dataLen = a.dataLen ∧
+      (a.run ops m).2.1.Inv ∧ (a.run ops m).2.1.grow = a.grow ∧ (a.run ops m).2.1.dataLen = a.dataLen ∧
       MemSame m (a.run ops m).2.2 := by
   induction ops with
-  | nil => intro a m h hg _; exact ⟨rfl, rfl, h, hg, rfl, MemSame.refl m⟩
+  | nil => intro a m h _; exact ⟨rfl, rfl, h, rfl, rfl, MemSame.refl m⟩
   | cons op ops ih =>
-    intro a m h hg hw
-    obtain ⟨s1, s2, s3, s4, s5, s6, _, _, _⟩ := step_refines a op m h hg (hw op (List.mem_cons_self ..))
-    have ih' := ih (a.step op m).2.1 (a.step op m).2.2 s3 s4
+    intro a m h hw
+    obtain ⟨s1, s2, s3, s4, s5, s6, _, _, _⟩ := step_refines a op m h (hw op (List.mem_cons_self ..))
+    have ih' := ih (a.step op m).2.1 (a.step op m).2.2 s3
       (by intro o ho; rw [s5]; exact hw o (List.mem_cons_of_mem _ ho))
     simp only [run, refusals, Spec.SSeq.run, List.headD_cons, List.tail_cons]
     rw [← s2, ← s1]
-    exact ⟨by rw [ih'.1], ih'.2.1, ih'.2.2.1, ih'.2.2.2.1, by rw [ih'.2.2.2.2.1, s5], MemSame.trans s6 ih'.2.2.2.2.2⟩
+    exact ⟨by rw [ih'.1], ih'.2.1, ih'.2.2.1, ih'.2.2.2.1.trans s4, by rw [ih'.2.2.2.2.1, s5], MemSame.trans s6 ih'.2.2.2.2.2⟩
 
 /-! ### constructor and destructor -/
 /-- `new_conf`: capacity 0, a capacity so large that `ex >= CC_MAX_ELEMENTS / capacity`, element
@@ -427,7 +424,7 @@ theorem new_ok (dl cap : Nat) (grow : Nat → Nat) (exGe : Nat → Bool) (m m' :
           have e1 := Mem.alloc_fst_true m (by simpa using h1)
           have e2 := Mem.alloc_fst_true m.alloc.2 (by simpa using h2)
           have hM : CC_MAX_ELEMENTS < 2 ^ 64 := by decide
-          refine ⟨⟨hdl, hcap, Nat.zero_le _, by simp [fresh], hcm⟩, by simp [abs], rfl, rfl, rfl,
+          refine ⟨⟨hdl, hcap, Nat.zero_le _, by simp [fresh], hmul⟩, by simp [abs], rfl, rfl, rfl,
             by rw [e2.1, e1.1], by rw [e2.2.1, e1.2.1], hmul, Nat.lt_of_le_of_lt hmul hM⟩
 
 /-- a refused construction yields no object and leaves the ledger as it was -/
